@@ -10,7 +10,7 @@ HERE = os.path.dirname(os.path.dirname(os.path.abspath(__file__)))
 TECH = 'deterministic simulation with fault injection: seeded search over schedules/faults on a virtual-time event loop, oracle over the recorded trace'
 
 CHECKS = {
-    'C01': ('exploration', 'seeded search over typed pipeline graphs, inputs, entry-point interleavings and execution modes (loop-less / on the simulated loop); every synchronous node is compared exactly with its reference model (value level), every edge with the attach-order delivery contract, every sink with an independent reference interpreter', '4 (C01), 3.2',
+    'C01': ('exploration', 'seeded search over typed pipeline graphs (incl. feedback edges guarded by unique, forwarding sinks, falsy values), inputs, entry-point interleavings and execution modes (loop-less / on the simulated loop / loop in an emulated background thread); every synchronous node is compared exactly with its reference model (value level), every edge with the attach-order delivery contract, every sink with an independent reference interpreter', '4 (C01), 3.2',
             'reference models written from the docs; pure user functions; one-seed = one execution; sampling, not proof'),
     'C02': ('exploration', 'seeded search over schedules (consumer latencies, producer gaps, timer intervals, tie policy) of pipelines containing buffer / delay / rate_limit / map_async / timed_window / partition(timeout) / zip / union with native-coroutine, Tornado-coroutine, future and synchronous consumers; relational contracts per asynchronous node (FIFO, exactly once, per-producer order through map_async, batch content), exact contracts for the synchronous nodes inside, no exception that nobody raised', '4 (C02)',
             'virtual-time SimLoop runs the real asyncio/tornado scheduling code; durations on a dyadic grid; no reordering of ready callbacks (asyncio guarantees FIFO)'),
@@ -24,8 +24,8 @@ CHECKS = {
             'deadline oracle applied where the node feeds only synchronous nodes and sinks; loop stalls are not injected into the deadline oracle'),
     'C10': ('exploration', 'the metadata half of every node and edge contract on the same seeded pipelines, with metadata (0, 1 or 2 dicts, with and without a reference counter) on arbitrary subsets of the elements; shape: every arrival carries a flat list of dicts', '4 (C10)',
             'as C01 / C02'),
-    'C13': ('exploration', 'seeded search over arrival patterns (bursts, idle gaps, 1-3 producers, awaiting or not, slow or fast consumers): deliveries below rate_limit are FIFO, exactly once, at least one interval apart, and immediate after an idle interval; delay keeps order and count', '4 (C13)',
-            'spacing is measured on the virtual clock; blocking user code that stalls the whole loop is outside the arrival patterns the statement quantifies over and is not injected'),
+    'C13': ('exploration', 'seeded search over arrival patterns (bursts, idle gaps, 1-3 producers, awaiting or not, slow or fast consumers, same-loop and threaded operation, loop stalls): deliveries below rate_limit are FIFO, exactly once, at least one interval apart, and immediate after an idle interval; delay keeps order and count', '4 (C13)',
+            'spacing is measured on the virtual clock; blocking user callbacks that stall the whole loop are injected as a fault kind (order and spacing must still hold; the "no needless delay after an idle interval" clause is not judged in runs with stalls)'),
     'C14': ('exploration', 'seeded search over arrivals against a busy consumer: what latest delivers is a strictly increasing subsequence of the arrivals, never the same arrival twice, and at quiescence the newest arrival has been delivered', '4 (C14)', 'as C02'),
     'C16': ('fault_enumeration', 'for every generated directly connected pipeline and input the fault-free run enumerates the user-function invocations; every single failing invocation (before and, for coroutines, after their await) is then executed, plus sampled multi-failure sets: the injected exception object is what the emitter gets, the failing node keeps its state, the failed element is never reported complete', '4 (C16)',
             'exhaustive over single failures per generated case, sampled over cases and multi-failure sets'),
